@@ -244,28 +244,53 @@ Proof. induction n as [|n IH]; [reflexivity|]. cbn. rewrite IH. apply app_assoc.
 Lemma repeat_n_nil n : repeat_n n [] = [].
 Proof. induction n as [|n IH]; [reflexivity | exact IH]. Qed.
 
+(* the wrapper's overflow test is exact: it fires iff the true product exceeds MaxInt *)
+Lemma repeat_test_exact len n : (0 < len)%Z ->
+  (maxInt / len <? n)%Z = (two63 <=? len * n)%Z.
+Proof.
+  intros Hl. unfold maxInt.
+  destruct (Z.ltb_spec ((two63 - 1) / len) n) as [H|H];
+    destruct (Z.leb_spec two63 (len * n)) as [G|G]; try reflexivity; exfalso.
+  - assert (n <= (two63 - 1) / len)%Z by (apply Z.div_le_lower_bound; lia). lia.
+  - assert ((two63 - 1) / len < n)%Z by (apply Z.div_lt_upper_bound; lia). lia.
+Qed.
+
 (* the result is n copies whenever the true product fits an int *)
 Lemma str_repeat_fits s n : (0 <= n)%Z -> (Z.of_nat (length s) * n < two63)%Z ->
   str_repeat s n = ROk (repeat_n (Z.to_nat n) s).
 Proof.
   intros Hn Hp. unfold str_repeat.
-  assert (W : wrap64 (Z.of_nat (length s) * n) = (Z.of_nat (length s) * n)%Z).
-  { unfold wrap64. rewrite Z.mod_small; unfold two63 in *; lia. }
-  rewrite W.
   destruct (Z.ltb_spec n 0); [lia|].
-  destruct (Z.ltb_spec (Z.of_nat (length s) * n) 0); [lia|].
-  destruct (Z.eqb_spec n 0) as [->|]; [reflexivity|].
-  destruct (Z.eqb_spec n 1) as [->|]; [change (Z.to_nat 1) with 1; cbn [repeat_n]; rewrite app_nil_r; reflexivity|].
-  destruct (Z.leb_spec two63 (Z.of_nat (length s) * n)); [lia|].
-  destruct s; [cbn [is_nil]; rewrite repeat_n_nil; reflexivity | reflexivity].
+  destruct (Z.ltb_spec 0 (Z.of_nat (length s))) as [L|L]; cbn [andb].
+  - rewrite repeat_test_exact by exact L.
+    destruct (Z.leb_spec two63 (Z.of_nat (length s) * n)); [lia|].
+    destruct s; [cbn in L; lia | reflexivity].
+  - destruct s; [cbn [is_nil]; rewrite repeat_n_nil; reflexivity | cbn in L; lia].
 Qed.
 
 Lemma str_repeat_negative s n : (n < 0)%Z -> str_repeat s n = RBadValue.
 Proof. intros H. unfold str_repeat. destruct (Z.ltb_spec n 0); [reflexivity | lia]. Qed.
 
-(* the defect: a product that wraps to a non-negative int reaches strings.Repeat *)
-Lemma str_repeat_panics : exists s n, str_repeat s n = RPanic.
-Proof. exists [97; 98; 99; 100]%N, 4611686018427387904%Z. vm_compute. reflexivity. Qed.
+(* a product that does not fit is refused *)
+Lemma str_repeat_too_large s n : (0 <= n)%Z -> (two63 <= Z.of_nat (length s) * n)%Z ->
+  str_repeat s n = RBadValue.
+Proof.
+  intros Hn Hp. unfold str_repeat. destruct (Z.ltb_spec n 0); [lia|].
+  destruct (Z.ltb_spec 0 (Z.of_nat (length s))) as [L|L]; cbn [andb].
+  - rewrite repeat_test_exact by exact L.
+    destruct (Z.leb_spec two63 (Z.of_nat (length s) * n)); [reflexivity | lia].
+  - assert (Z.of_nat (length s) = 0)%Z by lia. unfold two63 in Hp. lia.
+Qed.
+
+(* no Go panic escapes: the answer is a string or the bad-value exception *)
+Lemma str_repeat_never_panics s n :
+  (exists b, str_repeat s n = ROk b) \/ str_repeat s n = RBadValue.
+Proof.
+  unfold str_repeat. destruct (n <? 0)%Z; [right; reflexivity|].
+  destruct ((0 <? Z.of_nat (length s))%Z && (maxInt / Z.of_nat (length s) <? n)%Z);
+    [right; reflexivity|].
+  left. destruct (is_nil s); eexists; reflexivity.
+Qed.
 
 (* ------------------------------------------------------------------ *)
 (* code points *)
